@@ -88,14 +88,46 @@ class FiltersStub(types.ModuleType):
 FILTERS = FiltersStub()
 
 
+def downscale_local_mean(image, factors, cval=0, clip=True):
+    """skimage.transform.downscale_local_mean: mean over blocks, the image being padded with `cval` up to a multiple
+    of the block size."""
+    if not isinstance(image, LArray):
+        import skimage.transform
+        return skimage.transform.downscale_local_mean(image, factors, cval=cval)
+    factors = tuple(int(f) for f in factors)
+    sf, ss = image.fn, image.shape
+    oshape = []
+    for n, f in zip(ss, factors):
+        oshape.append(n if f == 1 else (n + (f - 1)) // f)
+    count = 1
+    for f in factors:
+        count *= f
+
+    def g(idx):
+        import itertools
+        tot = 0
+        for d in itertools.product(*[range(f) for f in factors]):
+            src = [i * f + dd if f != 1 else i for i, f, dd in zip(idx, factors, d)]
+            inb = larray.s_and(*[(sidx < n) for sidx, n, f in zip(src, ss, factors) if f != 1])
+            v = sf(tuple(larray.as_index(x) for x in src)) if inb is True else (cval if inb is False else None)
+            if v is None:
+                # guarded read: evaluate only under the in-bounds condition
+                v = larray.s_ite(inb, sf(tuple(larray.as_index(x) for x in src)), cval)
+            tot = tot + larray._to_num(v)
+        return tot / count
+    return LArray(oshape, g, "float64")
+
+
 def substitute(short, g):
-    import skimage.filters, numpy.fft
+    import skimage.filters, numpy.fft, skimage.transform
     subs = []
     for name, val in list(g.items()):
         if val is skimage.filters:
             g[name] = FILTERS; subs.append(name)
         elif val is numpy.fft:
             g[name] = FFT; subs.append(name)
+        elif val is skimage.transform.downscale_local_mean:
+            g[name] = downscale_local_mean; subs.append(name)
     return subs
 
 
@@ -104,15 +136,19 @@ def substitute(short, g):
 
 
 class SpecArray(LArray):
-    """FFT(src) (optionally multiplied by a real gain array): element = fft_uf(idx) * gain(idx)."""
+    """FFT(src), possibly circularly shifted and multiplied by a real gain array:
+       element(idx) = F[(idx + offs) mod n] * gain(idx)."""
 
-    def __init__(self, src, gain=None, kind="fftn"):
+    def __init__(self, src, gain=None, kind="fftn", offs=None):
         self.src, self.gain, self.kind = src, gain, kind
         nd = len(src.shape)
+        self.offs = tuple(offs) if offs is not None else (0,) * nd
         f = z3.Function("%s_of_v%d" % (kind, src.version), *([z3.IntSort()] * nd + [z3.RealSort()]))
+        shp = src.shape
 
         def fn(idx, f=f):
-            t = SNum(f(*[zterm(i) if core.is_sym(i) else z3.IntVal(int(i)) for i in idx]))
+            src_idx = [_shift_index(i, n, o) if not (isint(o) and o == 0) else i for i, n, o in zip(idx, shp, self.offs)]
+            t = SNum(f(*[zterm(i) if core.is_sym(i) else z3.IntVal(int(i)) for i in src_idx]))
             return t * self.gain.at(idx) if self.gain is not None else t
         LArray.__init__(self, src.shape, fn, "complex128")
 
@@ -125,22 +161,51 @@ class SpecArray(LArray):
                 g = larray.from_numpy(o) if isinstance(o, _np.ndarray) else larray.full(self.shape, o)
             if not larray._same_shape(g.shape, self.shape):
                 raise ValueError("operands could not be broadcast together with shapes %s %s" % (self.shape, g.shape))
-            return SpecArray(self.src, g if self.gain is None else self.gain * g, self.kind)
+            return SpecArray(self.src, g if self.gain is None else self.gain * g, self.kind, self.offs)
         return NotImplemented
 
     def __mul__(self, o): return self._times(o)
     def __rmul__(self, o): return self._times(o)
+
+    def shifted(self, axes, forward):
+        offs = list(self.offs)
+        for k in axes:
+            n = self.shape[k]
+            amount = (n - n // 2) if forward else (n // 2)
+            offs[k] = _norm_off(offs[k] + amount, n)
+        gain = _shift(self.gain, axes, forward) if self.gain is not None else None
+        return SpecArray(self.src, gain, self.kind, offs)
+
+    def unshifted(self):
+        return all(isint(o) and o == 0 for o in self.offs)
+
+
+def _norm_off(o, n):
+    if isint(o) and isint(n):
+        return o % n
+    t = z3.simplify(zterm(o) - zterm(n))
+    if z3.is_int_value(t) and t.as_long() == 0:
+        return 0
+    t0 = z3.simplify(zterm(o))
+    if z3.is_int_value(t0) and t0.as_long() == 0:
+        return 0
+    return larray.as_index(SNum(t0))
 
 
 class FilteredArray(LArray):
     """IFFT(FFT(src) * gain): opaque values, but remembers `src` and `gain` (the transfer function)."""
 
     def __init__(self, spec, kind):
+        if not spec.unshifted():
+            raise Unsupported("inverse FFT of a spectrum that is still circularly shifted")
         self.src, self.gain, self.kind = spec.src, spec.gain, (spec.kind, kind)
         nd = len(spec.shape)
         f = z3.Function("ifft_v%d_g%d" % (spec.src.version, spec.gain.version if spec.gain is not None else 0), *([z3.IntSort()] * nd + [z3.RealSort()]))
         LArray.__init__(self, spec.shape, lambda idx: SNum(f(*[zterm(i) if core.is_sym(i) else z3.IntVal(int(i)) for i in idx])), "complex128")
-        self.is_real_part = False
+
+    @property
+    def real(self):
+        return self
 
 
 def _shift_index(i, n, s):
@@ -148,13 +213,17 @@ def _shift_index(i, n, s):
     if isint(i) and isint(n) and isint(s):
         return (i + s) % n
     v = i + s
-    return larray.as_index(larray.s_ite(v < n, v, v - n)) if not isint(v) or not isint(n) else (v % n)
+    if isint(n) and isint(s) and s % n == 0:
+        return i
+    return larray.as_index(larray.s_ite(v < n, v, v - n))
 
 
 def _shift(a, axes, forward):
     if not isinstance(a, LArray):
         return (_np.fft.fftshift if forward else _np.fft.ifftshift)(a, axes=axes)
     axes = list(range(a.ndim)) if axes is None else ([axes] if isint(axes) else list(axes))
+    if isinstance(a, SpecArray):
+        return a.shifted(axes, forward)
     sf, ss = a.fn, a.shape
 
     def g(idx):
@@ -168,11 +237,7 @@ def _shift(a, axes, forward):
             else:
                 src.append(i)
         return sf(tuple(src))
-    out = LArray(ss, g, a.dtype_tag)
-    if isinstance(a, SpecArray):
-        # shifting a spectrum: keep it a spectrum with shifted gain bookkeeping is not needed by the anchored code
-        out.shifted_spec = (a, forward)
-    return out
+    return LArray(ss, g, a.dtype_tag)
 
 
 class FFTStub(types.ModuleType):
@@ -206,8 +271,6 @@ class FFTStub(types.ModuleType):
     def ifft2(a, *args, **k):
         if isinstance(a, SpecArray):
             return FilteredArray(a, "ifft2")
-        if isinstance(a, LArray) and getattr(a, "shifted_spec", None) is not None:
-            raise Unsupported("ifft2 of a shifted spectrum without gain bookkeeping")
         if isinstance(a, LArray):
             raise Unsupported("ifft2 of a lazy array that is not FFT(x)*gain")
         return _np.fft.ifft2(a, *args, **k)
